@@ -497,6 +497,47 @@ class Rewriter:
             b = b[:rs] + '(' + rep + ')' + b[c + 1:]
             self.fired('R13:' + name)
 
+    # R16: element-index abstraction for the raw-pointer loops of collections::Vec ----------------
+    def vec_rules(self, b):
+        """buffer pointers become element indices (base pointer = index 0); the SetLenOnDrop scope guard becomes a value whose
+        pending write-back (its Drop) is made explicit at the end of the guarded block; calls into user code become
+        callback shims that take the guard, so that their precondition can speak about the state an unwind would leave"""
+        b = self.sub('R16:base-ptr', r'\bself\.as_mut_ptr\(\)', '(0usize)', b)
+        b = self.sub('R16:len-call', r'\bself\.len\(\)', 'self.len', b)
+        b = self.sub('R16:guard-new', r'SetLenOnDrop::new\(\s*&mut self\.len\s*\)', 'SetLenOnDrop::new(self.len)', b)
+        b = self.sub('R16:ptr-offset', r'\b(\w+)\.offset\((-?\d+)\)', r'idx_offset(\1, \2)', b)
+        b = self.sub('R16:for-underscore', r'\bfor _ in\b', 'for i__ in', b)
+        gname = None
+        m = re.search(r'let mut (\w+) = SetLenOnDrop::new', b)
+        if m:
+            gname = m.group(1)
+        if gname is None:
+            raise ExtractError('R16: no SetLenOnDrop guard found')
+        b = self.map_calls(b, r'(?<![\w.:])ptr::drop_in_place',
+                           lambda m_, a: 'cb_drop_in_place(vs, %s, &%s)' % (a[0], gname), 'R16:callback-drop')
+        b = self.sub('R16:callback-next', r'\bvalue\.next\(\)', 'cb_value_next(vs, &%s)' % gname, b)
+        b = self.sub('R16:callback-last', r'\bvalue\.last\(\)', 'cb_value_last(vs, &%s)' % gname, b)
+        b = self.map_calls(b, r'(?<![\w.:])ptr::write',
+                           lambda m_, a: 'slot_write(vs, %s)' % ', '.join(a), 'R16:slot-write')
+        b = self.map_calls(b, r'\bself\.reserve', lambda m_, a: 'self.reserve(vs, %s)' % a[0], 'R16:reserve')
+        # the guard is dropped at the end of the block it was created in: make the write-back explicit there
+        mm = mask(b)
+        k = mm.index('let mut %s = SetLenOnDrop::new' % gname)
+        # enclosing block: nearest '{' before k at lower depth
+        depth, j = 0, k
+        while j >= 0:
+            if mm[j] == '}':
+                depth += 1
+            elif mm[j] == '{':
+                if depth == 0:
+                    break
+                depth -= 1
+            j -= 1
+        c = match_close(mm, j)
+        b = b[:c] + '    self.len = %s.local_len; /* R16: Drop of the SetLenOnDrop guard */\n        ' % gname + b[c:]
+        self.fired('R16:guard-drop-explicit')
+        return b
+
     # R15 ------------------------------------------------------------------------------------
     def desugar_pipeline(self, b):
         """`let X = iter::from_fn(|| GEN); ... X.filter_map(|p| F).next()`  ==  first F(item) that is Some, over the items GEN
@@ -556,6 +597,12 @@ class Rewriter:
             b = self.sub('R4:self-deref', r'\bself\.(\w+)\.get\(\)', r'footer_read(w, self_addr).\1', b)
             b = self.sub('R4:self-deref', r'\bself\.(\w+)\b(?!\()', r'footer_read(w, self_addr).\1', b)
             b = self.sub('R4:self-addr', r'\(self == ', '(self_addr == ', b)
+        if kind == 'vec':
+            b = self.vec_rules(b)
+        if kind == 'setlen':
+            # R16: the guard's `len: &mut usize` back-reference is dropped (its write-back is made explicit at the use site)
+            b = self.sub('R16:guard-deref', r'\*len\b', 'len', b)
+            b = self.sub('R16:guard-backref', r'(?m)^\s*len,\s*$', '', b)
         b = self.desugar_pipeline(b)                                         # R15
         b = self.sub('R7:empty-chunk', r'\bEMPTY_CHUNK\.get\(\)', 'empty_chunk_get()', b)
         b = self.aliases(b)                                                  # R4
